@@ -102,7 +102,7 @@ func vsConcWorld(s *verifsim.Sim, dir string) {
 		panic("store setup did not finish")
 	}
 
-	kinds := []string{"PutODS", "PutODSQ4", "Get", "CachedGet", "Has", "RemoveODSQ4", "RemoveQ4"}
+	kinds := []string{"PutODS", "PutODSQ4", "Get", "CachedGet", "Has", "RemoveODSQ4", "RemoveQ4", "NestedGet"}
 	var ops []*vsConcOp
 	apply := func(st *Store, cs *CachedStore, o *vsConcOp, judge bool, name string) error {
 		sq := sqOf[o.h]
@@ -118,6 +118,24 @@ func vsConcWorld(s *verifsim.Sim, dir string) {
 		case "Has":
 			_, err := st.HasByHeight(ctx, o.h)
 			return err
+		case "NestedGet":
+			// a reader that uses the store while it holds an accessor: cached get of o.h, then (still
+			// holding it) a cached get of a height on the same cache stripe, then reads through the first
+			acc, err := cs.GetByHeight(ctx, o.h)
+			if err != nil {
+				if errors.Is(err, ErrNotFound) || !judge {
+					return nil
+				}
+				return err
+			}
+			other := heights[(len(heights)+int(o.h)%len(heights)+1)%len(heights)]
+			if acc2, err2 := cs.GetByHeight(ctx, other); err2 == nil {
+				_ = acc2.Close()
+			}
+			if judge {
+				vsHeldReads(s, ctx, acc, sq, o, rng, name)
+			}
+			return acc.Close()
 		case "Get", "CachedGet":
 			var acc eds.AccessorStreamer
 			var err error
@@ -143,7 +161,7 @@ func vsConcWorld(s *verifsim.Sim, dir string) {
 		n := s.Range(1, 3, "nops")
 		var mine []*vsConcOp
 		for i := 0; i < n; i++ {
-			o := &vsConcOp{task: ti, idx: i, kind: kinds[s.ChooseW([]int{3, 4, 4, 3, 1, 3, 2}, "op")], h: heights[s.Choose(len(heights), "height")], hold: s.Range(1, 5, "hold"), end: -1}
+			o := &vsConcOp{task: ti, idx: i, kind: kinds[s.ChooseW([]int{3, 4, 4, 3, 1, 3, 2, 3}, "op")], h: heights[s.Choose(len(heights), "height")], hold: s.Range(1, 5, "hold"), end: -1}
 			mine = append(mine, o)
 			ops = append(ops, o)
 		}
@@ -420,7 +438,7 @@ func vsOrders(ops []*vsConcOp, limit int, fn func([]*vsConcOp) bool) {
 	// Has/Get do not change the content: only the order of the others matters
 	var mut []*vsConcOp
 	for _, o := range byEnd {
-		if o.kind != "Has" && o.kind != "Get" && o.kind != "CachedGet" {
+		if o.kind != "Has" && o.kind != "Get" && o.kind != "CachedGet" && o.kind != "NestedGet" {
 			mut = append(mut, o)
 		}
 	}
